@@ -150,11 +150,32 @@ where
     }
 }
 
+/// Verification hook (only with --cfg chialisp_verif): a named point between two
+/// steps of the output-writing routine.  When VERIF_CRASH_AT names the point the
+/// process dies there; when VERIF_TRACE_FILE is set the point is logged with the
+/// process id and a per-process sequence number.
+#[cfg(chialisp_verif)]
+pub fn verif_crash_point(label: &str) {
+    use std::sync::atomic::{AtomicUsize, Ordering};
+    static SEQ: AtomicUsize = AtomicUsize::new(0);
+    if let Ok(path) = std::env::var("VERIF_TRACE_FILE") {
+        let seq = SEQ.fetch_add(1, Ordering::SeqCst);
+        if let Ok(mut f) = fs::OpenOptions::new().create(true).append(true).open(path) {
+            let _ = writeln!(f, "{} {} {}", std::process::id(), seq, label);
+        }
+    }
+    if std::env::var("VERIF_CRASH_AT").ok().as_deref() == Some(label) {
+        std::process::abort();
+    }
+}
+
 pub fn atomic_write_file(
     input_path: &str,
     output_path: &str,
     target_data: &str,
 ) -> Result<(), String> {
+    #[cfg(chialisp_verif)]
+    verif_crash_point("atomic.start");
     let output_path_obj = Path::new(output_path);
     let output_dir = output_path_obj
         .parent()
@@ -166,6 +187,9 @@ pub fn atomic_write_file(
     let mut temp_output_file = NamedTempFile::new_in(output_dir)
         .map_err(|e| format!("error creating temporary compiler output for {input_path}: {e:?}"))?;
 
+    #[cfg(chialisp_verif)]
+    verif_crash_point("atomic.temp_created");
+
     let err_text = format!("failed to write to {:?}", temp_output_file.path());
     let translate_err = |_| err_text.clone();
 
@@ -173,9 +197,15 @@ pub fn atomic_write_file(
         .write_all(target_data.as_bytes())
         .map_err(translate_err)?;
 
+    #[cfg(chialisp_verif)]
+    verif_crash_point("atomic.written");
+
     temp_output_file
         .persist(output_path)
         .map_err(|e| format!("error persisting temporary compiler output {output_path}: {e:?}"))?;
+
+    #[cfg(chialisp_verif)]
+    verif_crash_point("atomic.persisted");
 
     Ok(())
 }
@@ -185,7 +215,11 @@ pub fn gentle_overwrite(
     output_path: &str,
     target_data: &str,
 ) -> Result<(), String> {
+    #[cfg(chialisp_verif)]
+    verif_crash_point("gentle.start");
     if let Ok(prev_content) = fs::read_to_string(output_path) {
+        #[cfg(chialisp_verif)]
+        verif_crash_point("gentle.read_prev");
         let prev_trimmed = prev_content.trim();
         let trimmed = target_data.trim();
         if prev_trimmed == trimmed {
